@@ -266,7 +266,11 @@ func ExtGState(c pdf.Cursor, obj pdf.Object, isDirect bool) (*extgstate.ExtGStat
 		case "HT":
 			// the name /Default denotes the device's default halftone,
 			// represented by a nil Halftone with the state bit set
-			if name, _ := pdf.Optional(c.Name(v)); name == "Default" {
+			name, err := pdf.Optional(c.Name(v))
+			if err != nil {
+				return nil, err
+			}
+			if name == "Default" {
 				set |= graphics.StateHalftone
 				break
 			}
@@ -339,6 +343,9 @@ func ExtGState(c pdf.Cursor, obj pdf.Object, isDirect bool) (*extgstate.ExtGStat
 	}
 	if set&graphics.StateBlackGeneration == 0 && bg2 != nil {
 		fn, err := pdf.Decode(c, bg2, function.Extract)
+		if pdf.IsReadError(err) {
+			return nil, err
+		}
 		if err == nil {
 			if nIn, nOut := fn.Shape(); nIn == 1 && nOut == 1 {
 				res.BlackGeneration = fn
@@ -348,6 +355,9 @@ func ExtGState(c pdf.Cursor, obj pdf.Object, isDirect bool) (*extgstate.ExtGStat
 	}
 	if set&graphics.StateBlackGeneration == 0 && bg1 != nil {
 		fn, err := pdf.Decode(c, bg1, function.Extract)
+		if pdf.IsReadError(err) {
+			return nil, err
+		}
 		if err == nil {
 			if nIn, nOut := fn.Shape(); nIn == 1 && nOut == 1 {
 				res.BlackGeneration = fn
@@ -364,6 +374,9 @@ func ExtGState(c pdf.Cursor, obj pdf.Object, isDirect bool) (*extgstate.ExtGStat
 	}
 	if set&graphics.StateUndercolorRemoval == 0 && ucr2 != nil {
 		fn, err := pdf.Decode(c, ucr2, function.Extract)
+		if pdf.IsReadError(err) {
+			return nil, err
+		}
 		if err == nil {
 			if nIn, nOut := fn.Shape(); nIn == 1 && nOut == 1 {
 				res.UndercolorRemoval = fn
@@ -373,6 +386,9 @@ func ExtGState(c pdf.Cursor, obj pdf.Object, isDirect bool) (*extgstate.ExtGStat
 	}
 	if set&graphics.StateUndercolorRemoval == 0 && ucr1 != nil {
 		fn, err := pdf.Decode(c, ucr1, function.Extract)
+		if pdf.IsReadError(err) {
+			return nil, err
+		}
 		if err == nil {
 			if nIn, nOut := fn.Shape(); nIn == 1 && nOut == 1 {
 				res.UndercolorRemoval = fn
@@ -424,7 +440,9 @@ func extractBlendMode(c pdf.Cursor, obj pdf.Object) (graphics.BlendMode, error) 
 		result := make(graphics.BlendMode, 0, len(v))
 		for _, elem := range v {
 			name, err := c.Name(elem)
-			if err != nil {
+			if pdf.IsReadError(err) {
+				return nil, err
+			} else if err != nil {
 				continue // skip malformed entries
 			}
 			result = append(result, name)
@@ -472,7 +490,11 @@ func parseTransferFunction(c pdf.Cursor, obj pdf.Object) (graphics.TransferFunct
 	var zero graphics.TransferFunctions
 
 	// check if it's an array of four or more transfer functions
-	if arr, err := c.Array(obj); err == nil && len(arr) >= 4 {
+	arr, err := c.Array(obj)
+	if pdf.IsReadError(err) {
+		return zero, err
+	}
+	if err == nil && len(arr) >= 4 {
 		var result graphics.TransferFunctions
 
 		// parse Red component
